@@ -58,8 +58,11 @@ def check_property(pid, tier, seed):
         return 1
     hits = build.scan_forbidden()
     try:
+        theorems, printed, blocks, stmt_hash = [], [], [], ''
         with build.lock():
-            theorems, printed, blocks, stmt_hash = build.props_compile(pid)
+            for pf in getattr(prop, 'props_files', [pid]):
+                t_, p_, b_, h_ = build.props_compile(pf)
+                theorems += t_; printed += p_; blocks += b_; stmt_hash += h_[:16]
         obligations = len(theorems)
         axioms = sorted({a for b in blocks for a in b})
         allowed = set(prop.allowed_axioms)
@@ -86,7 +89,7 @@ def check_property(pid, tier, seed):
     cov['checker_cmd'] = 'make -C /verif/coq (full .vo build) && coqc -Q . TungModel props/%s.v (Print Assumptions) && forbidden-keyword scan' % pid
     cov['trusted_base'] = TRUSTED_BASE_COMMON + list(prop.trusted_extra)
     if tier == 'thorough' and proof_problem is None:
-        rc, out = build.sh('timeout 1500 coqchk -o -silent -Q . TungModel TungModel.props.%s' % pid, cwd=build.COQ, timeout=1600)
+        rc, out = build.sh('timeout 1500 coqchk -o -silent -Q . TungModel ' + ' '.join('TungModel.props.%s' % x for x in getattr(prop, 'props_files', [pid])), cwd=build.COQ, timeout=1600)
         cov['coqchk'] = out.strip().split('\n')[-12:]
         if rc != 0:
             proof_problem = 'coqchk failed: ' + out[-800:]
